@@ -322,6 +322,7 @@ type zzCluster struct {
 	// client crash (C02): the committing client dies at its crashAt-th request (0-based), which is
 	// either never delivered or delivered but never answered; afterwards none of its requests
 	// reaches the store. Requests of peer clients are not affected and not counted.
+	onlyCommitTsExpired bool // the script's only fault is CommitTsExpired on a commit request
 	cancelCaller   func() // ends the context the transaction's caller passed to Commit (nil: not part of the script)
 	peerRPCs       int
 	peers          int
@@ -968,7 +969,13 @@ func (c *zzClient) SendRequest(ctx context.Context, addr string, req *tikvrpc.Re
 	} else if !c.peer && cl.faults > 0 && (cl.allowFaultOn == nil || cl.allowFaultOn(req.Type)) {
 		// the events that make sense for this request in the current store state
 		allowed := []int{zzEvOK, zzEvServerBusy, zzEvFakeEpoch}
-		if !cl.regionErrorsOnly {
+		if cl.onlyCommitTsExpired {
+			// a reader pushed the primary's min-commit-ts between the commit-ts fetch and this request
+			allowed = []int{zzEvOK}
+			if req.Type == tikvrpc.CmdCommit {
+				allowed = append(allowed, zzEvCommitTsExpired)
+			}
+		} else if !cl.regionErrorsOnly {
 			allowed = append(allowed, zzEvLostRequest, zzEvLostResponse, zzEvUndeterminedRegionErr)
 			if req.Type == tikvrpc.CmdCommit {
 				allowed = append(allowed, zzEvCommitTsExpired)
